@@ -172,14 +172,12 @@ class _Abstract(ast.NodeTransformer):
 
 
 def _bitwise_terms(n, table_inv):
-    """variables that occur as an operand of & | ^ (directly, or through + - of such): mask-like unknowns"""
+    """unknowns used as a bit MASK: the right operand of `&` when the left one is not a constant (`x & m`; in `c & x` the unknown
+    is the value being masked and takes any value)"""
     out = set()
     for x in ast.walk(n):
-        if isinstance(x, ast.BinOp) and isinstance(x.op, (ast.BitAnd, ast.BitOr, ast.BitXor)):
-            for side in (x.left, x.right):
-                for y in ast.walk(side):
-                    if isinstance(y, ast.Name) and y.id in table_inv:
-                        out.add(y.id)
+        if isinstance(x, ast.BinOp) and isinstance(x.op, ast.BitAnd) and isinstance(x.right, ast.Name) and x.right.id in table_inv and not isinstance(x.left, ast.Constant):
+            out.add(x.right.id)
     return out
 
 
@@ -210,7 +208,9 @@ def _domain(consts, term_text):
             dom.add(c)
     for c in ints:
         if 0 < c < (1 << 64) and bin(c).count("1") <= 6:
-            dom |= {1 << k for k in range(c.bit_length()) if (c >> k) & 1}        # the single bits of a mask
+            bits = [1 << k for k in range(c.bit_length()) if (c >> k) & 1]
+            dom |= set(bits)        # the single bits of a mask
+            dom |= {x | y for x in bits[:4] for y in bits[:4]}      # and pairs of them
     if any(c >= 128 for c in ints):
         dom |= {255, 256}
     if any(c >= 1 << 30 for c in ints):
